@@ -17,7 +17,7 @@
 From Coq Require Import Lia ZArith NArith List Bool.
 From ChessV Require Import Abs WfReflect GeomProofs InvProofs InvProofs2 Congr ZobristProofs
   EvalProofs2 Search GenFrame EpFrame GenTotal Material.
-From ChessV Require UndoProofs.
+From ChessV Require UndoProofs SoundB.
 Import ListNotations.
 Open Scope N_scope.
 
@@ -173,10 +173,7 @@ Proof.
 Qed.
 
 (** * an executable check *)
-Definition farb (d : nat) (b : board) : bool :=
-  nonempty (hm_stack b) && (hd 0 (hm_stack b) + N.of_nat d <? 100)
-  && nonempty (seen_stack b) && negb (hd 0 (seen_stack b) =? 3)
-  && (fullmove b + N.of_nat d <? FULLMOVE_MAX).
+Notation farb := SoundB.farb.
 
 Lemma nonempty_iff {A} (l : list A) : nonempty l = true <-> l <> [].
 Proof.
@@ -189,16 +186,14 @@ Qed.
 
 Lemma farb_spec d b : farb d b = true <-> far d b.
 Proof.
-  unfold farb, far. rewrite !andb_true_iff, !nonempty_iff, !N.ltb_lt, negb_true_iff, N.eqb_neq. tauto.
+  unfold SoundB.farb, far. rewrite !andb_true_iff, !nonempty_iff, !N.ltb_lt, negb_true_iff, N.eqb_neq. tauto.
 Qed.
 
-Definition soundb (d : nat) (b : board) : bool :=
-  invb rook_t bishop_t b && legal_materialb (white b) && legal_materialb (black b)
-  && farb d b && (hash b =? key_of T (abstract b)).
+Notation soundb := (SoundB.soundb T rook_t bishop_t).
 
 Theorem soundb_spec d b : soundb d b = true <-> Sound d b.
 Proof.
-  unfold soundb, Sound. rewrite !andb_true_iff.
+  unfold SoundB.soundb, Sound. rewrite !andb_true_iff.
   rewrite (invb_spec rook_t bishop_t b), !legal_materialb_spec, farb_spec, N.eqb_eq.
   unfold KeyInv.
   split.
